@@ -171,6 +171,11 @@ class Run:
         self.msgs = {"A": 0, "B": 0}
         self.frames = {"A": 0, "B": 0}
         self.current = {}          # side -> negotiation call in flight
+        # application actions (createDataChannel / addTransceiver) at arbitrary points
+        self.app = [dict(a, done=False) for a in sc.get("app", [])]
+        self.marks = {"chan_closed": {"A": None, "B": None}, "sctp_closed": {"A": None, "B": None},
+                      "peer_closed": {"A": None, "B": None}}   # loop iteration at which the condition was first seen
+        self.napp = 0
         self.pre_threads = set(threading.enumerate())
 
     # ------------------------------------------------------------------ plumbing
@@ -235,6 +240,9 @@ class Run:
             self.msgs[side] += 1
             if not self.close_started[side]:
                 return
+        if src == "channel" and event == "close" and self.marks["chan_closed"][side] is None:
+            self.marks["chan_closed"][side] = self.iter
+            self.app_poll()
         if self.close_started[side]:
             self.log(op="event", side=side, src=src, name=str(event))
 
@@ -267,12 +275,64 @@ class Run:
         key = (side, label, phase)
         self.counts[key] = self.counts.get(key, 0) + 1
         self.log(op="label", side=side, label=label, phase=phase)      # informational (signatures)
+        for a in self.app:
+            t = a["trig"]
+            if (not a["done"] and t["kind"] == "label" and t["side"] == side and t["label"] == label
+                    and t["phase"] == phase and t.get("n", 1) == self.counts[key]):
+                self.do_app(a)
         tr = self.sc["trig"]
         if (not self.fired and tr["kind"] == "label" and tr["side"] == side and tr["label"] == label
                 and tr["phase"] == phase and tr.get("n", 1) == self.counts[key]):
             self.fire("%s.%s.%s#%d" % (key + (self.counts[key],)))
 
+    def app_poll(self):
+        """Application actions whose condition (n loop iterations after a mark / iteration k) is met."""
+        for a in self.app:
+            if a["done"]:
+                continue
+            t = a["trig"]
+            if t["kind"] == "iter":
+                if self.iter >= t["k"]:
+                    self.do_app(a)
+            elif t["kind"] in self.marks:
+                base = self.marks[t["kind"]][a["side"]]
+                if base is not None and self.iter >= base + t.get("plus", 0):
+                    self.do_app(a)
+
+    def do_app(self, a):
+        """createDataChannel / addTransceiver called by the application on side a['side']."""
+        a["done"] = True
+        side = a["side"]
+        pc = self.pcs[side]
+        if self.close_started[side]:
+            # the application has called close() itself: calls issued after that are C14's subject.
+            # (A connection that closed ITSELF - remote side gone - is fair game: the application
+            # may not have noticed yet.)
+            self.log(op="app", side=side, what=a["what"], res="skipped", at=a["trig"].get("kind"), chan=-1,
+                     pcsig=str(pc.signalingState), sctp="", conn=str(pc.connectionState), closing=1)
+            return
+        self.napp += 1
+        res = "ok"
+        idx = -1
+        pcsig = str(pc.signalingState)
+        try:
+            if a["what"] == "dc":
+                self.add_channel(side, pc.createDataChannel("late%d" % self.napp))
+                idx = len(self.channels[side]) - 1
+            else:
+                pc.addTransceiver(a["what"], direction=a.get("dir", "sendrecv"))
+        except Exception as e:  # noqa  (e.g. InvalidStateError once the connection is closed)
+            res = "raised: %s" % type(e).__name__
+        sctp = getattr(pc, "sctp", None)
+        self.log(op="app", side=side, what=a["what"], res=res, at=a["trig"].get("kind"), chan=idx, pcsig=pcsig,
+                 sctp=str(getattr(sctp, "state", "none")), conn=str(pc.connectionState), closing=1 if self.close_started[side] else 0)
+        self.scan()
+
     def at_script(self, label, phase):
+        for a in self.app:
+            t = a["trig"]
+            if not a["done"] and t["kind"] == "script" and t["label"] == label and t["phase"] == phase:
+                self.do_app(a)
         tr = self.sc["trig"]
         if not self.fired and tr["kind"] == "script" and tr["label"] == label and tr["phase"] == phase:
             self.fire("script:%s.%s" % (label, phase))
@@ -325,6 +385,8 @@ class Run:
             res = "raised"
             exc = "%s: %s" % (type(e).__name__, e)
         self.log(op="close_ret", side=side, n=n, res=res, exc=exc[:200])
+        if self.marks["peer_closed"][other(side)] is None:
+            self.marks["peer_closed"][other(side)] = self.iter
         self.observe(side, final=False)
         return res
 
@@ -504,7 +566,7 @@ class Run:
                     return False
                 return all(c.readyState == "open" for s in SIDES for c in self.channels[s]) and \
                     (cfg.get("dc", "none") == "none" or len(self.channels["B"]) > 0)
-            if not await self.wait_for(connected, CONNECT_BOUND):
+            if not await self.wait_for(connected, self.sc.get("connect_bound", CONNECT_BOUND)):
                 raise ScriptStop
             self.info["connected_iter"] = self.iter
             self.at_script("connected", "enter")
@@ -525,7 +587,7 @@ class Run:
                     if direction == "recvonly" and cfg.get("answer_track", True) and not self.frames["A"]:
                         return False
                 return True
-            if not await self.wait_for(flowing, CONNECT_BOUND):
+            if not await self.wait_for(flowing, self.sc.get("connect_bound", CONNECT_BOUND)):
                 raise ScriptStop
             self.info["flowing_iter"] = self.iter
             self.at_script("flowing", "enter")
@@ -543,6 +605,13 @@ class Run:
             self.iter += 1
             if tr["kind"] == "iter" and not self.fired and self.iter >= tr["k"]:
                 self.fire("iter:%d" % self.iter)
+            if self.app:
+                for side, pc in self.pcs.items():
+                    if self.marks["sctp_closed"][side] is None:
+                        sctp = getattr(pc, "sctp", None)
+                        if sctp is not None and getattr(sctp, "state", None) == "closed":
+                            self.marks["sctp_closed"][side] = self.iter
+                self.app_poll()
             orig_once()
         self.build()
         loop._run_once = run_once
@@ -757,6 +826,7 @@ CONSTANTS
  PeerGoes = {}
  Deviations = {}
  DevSel = {}
+ AppChans = {}
  Levels = {}
  Users = {}
 CHECK_DEADLOCK FALSE
@@ -764,12 +834,13 @@ CHECK_DEADLOCK FALSE
 
 SAFETY = ["PostStates", "NoLateEvent", "SettledOK", "WitnessProbe"]
 WITNESSES = ["WitCloseAtIceConn", "WitCloseAtDtlsHs", "WitCloseFlowing", "WitCloseInNeg", "WitAutoClose",
-             "WitSecondWaits", "WitSecondAfter", "WitPeerGoneFirst", "WitRcvStartedWait", "WitIceFix"]
+             "WitSecondWaits", "WitSecondAfter", "WitPeerGoneFirst", "WitRcvStartedWait", "WitIceFix", "WitLateChannel"]
 # deviation -> what TLC must report with exactly that defect re-enabled in the model
 DEVIATIONS = {
     "ConsentAfterClose": "SettledOK", "SigAfterClose": "PostStates", "TrackNotEnded": "SettledOK",
     "MediaAfterClose": "SettledOK", "NoRtcpWait": "SettledOK", "SkipSctpStop": "PostStates",
-    "NotIdempotent": "NoLateEvent", "DecoderNotJoined": "SettledOK",
+    "NotIdempotent": "NoLateEvent", "DecoderNotJoined": "SettledOK", "SctpStopGuard": "PostStates",
+    "ChanOnClosed": "PostStates",
 }
 
 
@@ -778,10 +849,11 @@ def tla_set(items):
 
 
 def model_cfg(shapes, roles, pg, users, deviations=(), invariants=SAFETY, props=("SecondCloseNoop",), view=True,
-              spec="Spec", devsel=("none",), levels=(0,)):
+              spec="Spec", devsel=("none",), levels=(0,), app=(0,)):
     lines = ["SPECIFICATION " + spec, "CONSTANTS",
              " Shapes = " + tla_set(shapes), " Roles = " + tla_set(roles), " PeerGoes = " + tla_set(pg),
              " Deviations = " + tla_set(sorted(deviations)), " DevSel = " + tla_set(devsel),
+             " AppChans = {" + ", ".join(str(x) for x in app) + "}",
              " Levels = {" + ", ".join(str(x) for x in levels) + "}", " Users = " + tla_set(users)]
     if view:
         lines.append("VIEW View")
@@ -908,18 +980,36 @@ def point_from_behaviour(beh, variant):
         mode = "both"
     else:
         mode = "single"
+    # the application's late channel: where was the connection when it was created?
+    app = []
+    gap = [0, 3, 40][variant % 3]
+    for j in range(1, idx):
+        if (beh[j][1].get("act") or {}).get("op") == "app_chan":
+            pa = beh[j - 1][1]["st"]
+            if pa["sctp"]["dead"]:
+                at = {"kind": "sctp_closed", "plus": 1 + variant % 2}
+                gap = 80                       # the remote side closes first; leave room for the late creation
+            elif pa["sl"] == "idle" and pa["sr"] == "idle":
+                at = {"kind": "script", "label": "pre", "phase": "enter"}
+            elif pa["snd"]["started"] or pa["sctp"]["started"]:
+                at = {"kind": "script", "label": "connected", "phase": "enter"}
+            elif pa["sl"] == "done" and pa["sr"] == "done":
+                at = {"kind": "script", "label": "post", "phase": "enter"}
+            else:
+                at = {"kind": "script", "label": "B.setRemoteDescription", "phase": "exit"}
+            app.append({"what": "dc", "side": side, "trig": at})
     expect = {"sig": last["sig"], "ice": last["pcIce"], "conn": last["pcConn"],
-              "chan_closed": last["chan"] in ("none", "closed"),
+              "chan_closed": last["chan"] in ("none", "closed") and last["chan2"] in ("none", "closed"),
               "track_ok": not (last["trk"]["st"] == "live" and not last["trk"]["ended"]),
               "nothing_running": _model_quiet(last)}
-    return {"cfg": shape_cfg(shape, variant), "trig": trig, "mode": mode, "side": side,
-            "gap_ms": [0, 3, 40][variant % 3], "settle_ms": 20, "src": "tlc",
+    return {"cfg": shape_cfg(shape, variant), "trig": trig, "mode": mode, "side": side, "app": app, "connect_bound": 6.0,
+            "gap_ms": gap, "settle_ms": 20, "src": "tlc",
             "model": {"shape": shape, "role": cfg["role"], "co": labels, "sl": pre["sl"], "sr": pre["sr"],
                       "second": second, "expect": expect, "late": sorted(last["late"])}}
 
 
 def point_key(p):
-    return json.dumps([p["cfg"], p["trig"], p["mode"], p["side"]], sort_keys=True)
+    return json.dumps([p["cfg"], p["trig"], p["mode"], p["side"], p.get("app")], sort_keys=True)
 
 
 SAMPLE_CFGS = [
@@ -999,6 +1089,54 @@ def iteration_points(r, refs, thorough):
     for p in pts:
         p["gap_ms"] = r.choice([0, 2, 20])
         p["settle_ms"] = r.choice([0, 20, 200])
+    return pts
+
+
+LATE_TRIGS = ([{"kind": "chan_closed", "plus": n} for n in (0, 1, 2, 3, 5)]
+              + [{"kind": "sctp_closed", "plus": n} for n in (0, 1, 2, 4)]
+              + [{"kind": "peer_closed", "plus": n} for n in (0, 1, 3)])
+
+
+def app_points(r, refs, thorough):
+    """The application creates data channels / adds transceivers at arbitrary points.
+    Family `late`: the remote side closes first; the local application creates a channel
+    (or adds a transceiver) n loop iterations after its channel closed / its SCTP transport
+    reported closed / the peer's close() returned - i.e. after the association died by
+    itself and before (or while) the local connection closes; then local close(), twice.
+    Family `any`: the action at a random label / script label / iteration, close() at another."""
+    pts = []
+    cfgs = [SAMPLE_CFGS[0], SAMPLE_CFGS[2], SAMPLE_CFGS[3]] if thorough else [SAMPLE_CFGS[0], SAMPLE_CFGS[2]]
+    for ci, cfg in enumerate(cfgs):
+        for x in SIDES:
+            for ti, trig in enumerate(LATE_TRIGS):
+                whats = ["dc", "audio"] if thorough else (["dc"] if (ti + ci) % 4 else ["dc", "audio"])
+                if not thorough and ci == 1 and ti % 2:
+                    continue
+                for what in whats:
+                    pts.append({"cfg": cfg, "trig": {"kind": "script", "label": ["flowing", "connected", "end"][(ti + ci) % 3], "phase": "enter"},
+                                "mode": "single", "side": x, "gap_ms": 0, "settle_ms": [60, 250][ti % 2], "src": "app",
+                                "app": [{"what": what, "side": other(x), "trig": dict(trig)}]})
+    labs = [("script", l, "enter") for l in ("pre",) + SCRIPT_CALLS + ("post", "connected", "flowing")]
+    labs += [("script", l, "exit") for l in SCRIPT_CALLS]
+    labs += [("label", l, ph) for l in LABELS for ph in (("exit",) if l == "ice_check_done" else ("enter", "exit"))]
+    for i in range(400 if thorough else 24):
+        cfg, ref = refs[i % len(refs)]
+        side = r.choice(SIDES)
+
+        def pick(sd):
+            if r.random() < 0.25:
+                return {"kind": "iter", "k": r.randint(1, max(2, int(ref.get("end_iter") or 120)))}
+            kind, lab, ph = r.choice(labs)
+            if kind == "script":
+                return {"kind": "script", "label": lab, "phase": ph}
+            return {"kind": "label", "side": sd, "label": lab, "phase": ph, "n": 1}
+        aside = r.choice(SIDES)
+        apps = [{"what": r.choice(["dc", "dc", "audio", "video"]), "side": aside, "trig": pick(aside)}]
+        if r.random() < 0.3:
+            a2 = other(aside)
+            apps.append({"what": r.choice(["dc", "audio"]), "side": a2, "trig": r.choice(LATE_TRIGS) if r.random() < 0.5 else pick(a2)})
+        pts.append({"cfg": cfg, "trig": pick(side), "mode": r.choice(MODES), "side": side, "gap_ms": r.choice([0, 2, 30]),
+                    "settle_ms": r.choice([0, 20, 100]), "src": "app", "app": apps, "connect_bound": 5.0})
     return pts
 
 
@@ -1098,7 +1236,16 @@ def signatures(res, clause, pos, side):
         sig["events"] = ",".join(sorted(evs))
         sig["inflight"] = inflight
     elif clause == "C19.channel_not_closed":
-        sig["channels"] = ",".join(sorted(set(step.get("channels", []))))
+        sig["channels"] = ",".join(sorted(set(c for c in step.get("channels", []) if c != "closed")))
+        late = {s.get("chan"): s for s in steps
+                if s.get("op") == "app" and s.get("side") == side and s.get("what") == "dc" and s.get("res") == "ok"}
+        kinds = set()
+        for i, c in enumerate(step.get("channels", [])):
+            if c != "closed":
+                a = late.get(i)
+                kinds.add("no" if a is None else "on_closed_connection" if a.get("pcsig") == "closed"
+                          else "after_sctp_closed" if a.get("sctp") == "closed" else "yes")
+        sig["late_channel"] = ",".join(sorted(kinds))
     elif clause in ("C19.close_hangs", "C19.close_raised"):
         sig["exc"] = (step.get("exc") or "").split(":")[0]
         sig["inflight"] = inflight
@@ -1111,7 +1258,7 @@ def detail_of(res, clause, pos, side):
     sc = res["sc"]
     steps = res["steps"]
     step = steps[pos - 1] if 0 < pos <= len(steps) else None
-    return {"side": side, "injection": sc["trig"], "mode": sc["mode"], "closed_side": sc["side"], "cfg": sc["cfg"],
+    return {"side": side, "injection": sc["trig"], "mode": sc["mode"], "closed_side": sc["side"], "cfg": sc["cfg"], "app": sc.get("app"),
             "fired_at": res.get("info", {}).get("fired_at"), "step": step, "source": sc.get("src")}
 
 
@@ -1145,11 +1292,15 @@ def tlc_chain(sc, thorough, out):
         runs = []
         if thorough:
             runs.append(("exh_all", model_cfg(ALL_SHAPES, BOTH_ROLES, [True, False], ["u1", "u2"]), ["-coverage", "1"], 2400))
+            # the application creates a data channel at any time (also after the association died)
+            runs.append(("exh_app", model_cfg(["d", "md", "md2"], BOTH_ROLES, [True, False], ["u1"], app=[1]), ["-coverage", "1"], 2400))
             runs.append(("live", model_cfg(["m", "md"], BOTH_ROLES, [True, False], ["u1", "u2"], invariants=[], props=live), [], 2400))
         else:
             runs.append(("exh_alive", model_cfg(["m", "d", "md"], BOTH_ROLES, [False], ["u1", "u2"]), ["-coverage", "1"], 600))
             # the remote side may go away
             runs.append(("exh_peer", model_cfg(["md"], ["offerer"], [True], ["u1"]), ["-coverage", "1"], 900))
+            # the application creates a data channel at any time (also after the association died)
+            runs.append(("exh_app", model_cfg(["d"], BOTH_ROLES, [True], ["u1", "u2"], app=[1]), ["-coverage", "1"], 900))
             # liveness under weak fairness of every internal step (small: liveness checking is the slow part)
             runs.append(("live", model_cfg(["m"], ["answerer"], [True], ["u1"], invariants=[], props=live), [], 900))
         for name, cfg, args, to in runs:
@@ -1169,12 +1320,20 @@ def tlc_chain(sc, thorough, out):
                 return
         # every deviation must break the model (one run: the deviation is part of the configuration)
         devs = sorted(DEVIATIONS)
+        late = ["ChanOnClosed", "SctpStopGuard"]          # need the remote side to leave and a late channel
         res = T.tlc(sc, "PcLife", model_cfg(["md"], BOTH_ROLES if thorough else ["answerer"], [False], ["u1", "u2"],
-                                            invariants=["DevProbe"], props=[], devsel=devs), workers=W, timeout=900)
+                                            invariants=["DevProbe"], props=[], devsel=[d for d in devs if d not in late]),
+                    workers=W, timeout=900)
+        res2 = T.tlc(sc, "PcLife", model_cfg(["d", "md"] if thorough else ["d"], BOTH_ROLES, [True], ["u1"],
+                                             invariants=["DevProbe"], props=[], devsel=late, app=[1]), workers=W, timeout=900)
         out["devrun"] = res
-        _dbg("tlc devs", res.distinct, round(res.wall, 1))
+        out["devrun_late"] = res2
+        _dbg("tlc devs", res.distinct, round(res.wall, 1), res2.distinct, round(res2.wall, 1))
+        if not res2.complete:
+            out["error"] = "deviation run (late channel) of PcLife did not complete\n" + res2.out[-1500:]
+            return
         broke = {}
-        for x in res.printed("DEVBREAK"):
+        for x in res.printed("DEVBREAK") + res2.printed("DEVBREAK"):
             broke.setdefault(x[1], set()).add(x[2])
         out["deviations"] = {d: sorted(broke.get(d, ())) for d in devs}
         if not res.complete:
@@ -1201,7 +1360,7 @@ def run():
             # ---- 2a. interruption points from TLC behaviours
             nsim = 1500 if thorough else 240
             sim, behs = T.simulate(sc, "PcLife", model_cfg(ALL_SHAPES, BOTH_ROLES, [True, False], ["u1", "u2"], as_is,
-                                                             invariants=[], props=[], view=False, levels=[0, 3, 6, 9, 12, 16, 20]),
+                                                             invariants=[], props=[], view=False, levels=[0, 3, 6, 9, 12, 16, 20], app=[0, 1]),
                                    num=nsim, depth=80, seed=seed(), timeout=900, workers=8)
             if not behs:
                 raise T.MachineryError("no simulated behaviours\n" + sim.out[-1500:])
@@ -1242,7 +1401,8 @@ def run():
                 refs.append((s["cfg"], info))
 
             # ---- 2b/3. all scenarios
-            rest = product_points(r, thorough) + iteration_points(r, refs, thorough) + delay_points(r, refs, 300 if thorough else 16)
+            rest = (product_points(r, thorough) + iteration_points(r, refs, thorough) + delay_points(r, refs, 300 if thorough else 16)
+                    + app_points(r, refs, thorough))
             r.shuffle(rest)                       # a time cut must not starve one kind of point
             scenarios = list(tlc_points) + rest
             for i, s in enumerate(scenarios):
@@ -1340,14 +1500,14 @@ def run():
             if chain.get("error"):
                 raise T.MachineryError(chain["error"])
             seen_w = set()
-            for k in ("exh_all", "exh_alive", "exh_peer"):
+            for k in ("exh_all", "exh_app", "exh_alive", "exh_peer"):
                 if k in chain:
                     seen_w |= {w[1] for w in chain[k].printed("WITNESS")}
             missing = sorted(set(WITNESSES) - seen_w)
             if missing:
                 raise T.MachineryError("vacuity: witnesses never reached in the model: %s" % missing)
             cov = {}
-            for k in ("exh_all", "exh_alive", "exh_peer"):
+            for k in ("exh_all", "exh_app", "exh_alive", "exh_peer"):
                 if k in chain:
                     for a, v in chain[k].action_counts().items():
                         cov[a] = (cov.get(a, (0, 0))[0] + v[0], cov.get(a, (0, 0))[1] + v[1])
@@ -1356,7 +1516,7 @@ def run():
             dead = sorted(a for a, v in cov.items() if v[1] == 0 and a not in ("Init",))
             if dead:
                 raise T.MachineryError("coverage: model actions never taken: %s" % dead)
-            exh = [chain[k] for k in ("exh_all", "exh_alive", "exh_peer") if k in chain]
+            exh = [chain[k] for k in ("exh_all", "exh_app", "exh_alive", "exh_peer") if k in chain]
 
         fired = {}
         for x in good:
@@ -1367,7 +1527,7 @@ def run():
             "states": sum(e.distinct for e in exh), "transitions": sum(e.generated for e in exh), "exhaustive": True,
             "model_depth": max(e.depth for e in exh),
             "model_runs": {k: {"distinct": chain[k].distinct, "generated": chain[k].generated, "wall_s": round(chain[k].wall, 1)}
-                           for k in ("exh_all", "exh_alive", "exh_peer", "live") if k in chain},
+                           for k in ("exh_all", "exh_app", "exh_alive", "exh_peer", "live", "devrun", "devrun_late") if k in chain},
             "liveness_checked": ["CloseLive", "QuietLive"],
             "classic_witness_run": "witness" in chain,
             "witnesses_violated": sorted(seen_w),
@@ -1387,7 +1547,11 @@ def run():
                     "the scripted session (not the fallback close at the end)",
             "trace_events_validated": sum(len(x["steps"]) for x in good),
             "executions_by_source": {k: sum(1 for x in good if x["sc"].get("src") == k)
-                                     for k in ("reference", "tlc", "label", "script", "iter", "delay")},
+                                     for k in ("reference", "tlc", "label", "script", "iter", "delay", "app")},
+            "app_actions": {k: sum(1 for x in good for st in x["steps"] if st.get("op") == "app" and
+                                   ("%s/%s/sctp=%s" % (st["what"], "ok" if st["res"] == "ok" else "raised", st.get("sctp"))) == k)
+                            for k in sorted({"%s/%s/sctp=%s" % (st["what"], "ok" if st["res"] == "ok" else "raised", st.get("sctp"))
+                                             for x in good for st in x["steps"] if st.get("op") == "app"})},
             "injection_points_hit": fired,
             "fallback_injections": sum(1 for x in good if x["info"].get("fallback")),
             "scenarios_skipped_for_time": skipped,
